@@ -514,6 +514,7 @@ func main() {
 	args := hx.ParseArgs()
 	meta := hx.NewMeta("h_http", args.Seed, args.Tier)
 	devnull, _ := os.OpenFile(os.DevNull, os.O_WRONLY, 0)
+	hx.KeepStderr = os.Stderr
 	os.Stderr = devnull
 	rng := hx.NewRng(args.Seed)
 	meta.Rule = "real ServerCodec + handler adapter over a scripted inbound stream: 1-4 requests per connection (GET/POST/PUT/DELETE, HTTP/1.0 and 1.1, Connection close/keep-alive, bodies 0..3000 by Content-Length or chunked), fragmentation 1 byte / one piece / random cuts, handler programs (implicit or explicit status, explicit Content-Length / chunked / neither, 0-3 writes of 0..5000 bytes around the 2048-byte buffer, explicit Flush, request body unread / partly / fully read); responses parsed back with net/http.ReadResponse; non-trivial = at least 2 requests or an unread body or an explicit Flush; distinct = distinct scenario"
